@@ -10,17 +10,31 @@ THEOREMS = ['C08_valid_prefix', 'C08_expected_sound', 'C08_expected_complete', '
             'C08_lalr_valid_items_viable', 'C08_lalr_shift_viable', 'C08_lalr_error_not_late', 'C08_lalr_accepts_sound',
             'C08_lalr_example',
             'C08_lalr_never_early', 'C08_lalr_error_position_exact', 'C08_lalr_accepts_exact',
-            'C08_lalr_never_early_needs_conflict_free']
-GEN_DEPS = []
+            'C08_lalr_never_early_needs_conflict_free',
+            'C08_dynamic_tilings', 'C08_dynamic_expected_exact', 'C08_dynamic_error_not_early', 'C08_dynamic_report_chars',
+            'C08_dynamic_report_eof', 'C08_dynamic_report_example', 'C08_dynamic_error_late_refuted',
+            'C08_nonproductive_refuted', 'C08_earley_error_decisions_are_source',
+            'C08_contextual_fallback_expected_covers_accepts']
+# EarleySteps / ErrorSites: translator/gen_earley.py (raise sites and their decision conditions in earley.py / xearley.py,
+# ContextualLexer fallback, exception constructors, parse_from_state); LexStep pins BasicLexer.next_token (the lexer's
+# UnexpectedCharacters), InterHoles pins ParserState.feed_token (the parser's UnexpectedToken) and InteractiveParser.accepts;
+# DynStep regenerates the line/column bookkeeping of xearley used by the report model
+GEN_DEPS = ['EarleySteps', 'ErrorSites', 'LexStep', 'InterHoles', 'DynStep']
 RULE = ('random CFGs with every rule productive (<=4 non-terminals, <=3 single-character terminals, nullable / recursive / '
         'ambiguous), all strings up to length 4 over the alphabet (+ a foreign character) and sampled longer ones; every '
         'rejected input is checked under earley x {basic, dynamic, dynamic_complete} and, when the grammar is LALR, lalr x '
         '{basic, contextual}: exception class, position vs the longest viable prefix computed by an independent recogniser, '
         'continuation sets. non-trivial = distinct (grammar, input, engine) rejected after at least one token was consumed')
-TRUSTED_BASE = ['theorems are about the specification chart (Earley/Spec.v); that the code computes this chart is C01 '
+TRUSTED_BASE = ['dynamic-lexer report: hand model Earley/DynReport.v over Earley/Dyn.v (tied by comparing, in Coq, position / line / column / '
+                'allowed / considered items / state with the exception lark raises, on recorded regex answers); the regex engine is an '
+                'oracle; the contextual-lexer fallback is modelled at set level only (Gen/ErrorSites.v + stream always-accept)',
+                'theorems are about the specification chart (Earley/Spec.v); that the code computes this chart is C01 '
                 '(Earley/Alg model + correspondence); the LALR half is tied by C02/C13 driver models and by this differential',
                 'harness/cfgutil.py: independent saturation recogniser used as the viable-prefix oracle']
-ASSUMPTIONS = ['earliest-position claim is stated for grammars whose rule bodies are all productive (finding F10 otherwise)',
+ASSUMPTIONS = ['dynamic lexers: the reported position is proved never early; it can be late when an ignored match starts at a '
+               'position whose column is empty (finding F52) - the main streams use whitespace ignores, which cannot start inside a '
+               'pending terminal match',
+               'earliest-position claim is stated for grammars whose rule bodies are all productive (finding F10 otherwise)',
                'CYK raises ParseError without position: only the exception class is checked']
 ENGINES = [('earley', 'basic'), ('earley', 'dynamic'), ('earley', 'dynamic_complete'), ('lalr', 'basic'), ('lalr', 'contextual')]
 
@@ -99,6 +113,12 @@ def check_rejection(ctx, rules, ts, g, parser, lexer, p, toks, text, exotic=Fals
             got = set(err.expected or [])
             if not legal <= got:
                 return 'Earley/basic: expected %s misses legal continuation(s) %s' % (sorted(got), sorted(legal - got))
+        elif isinstance(err, UnexpectedCharacters):
+            # the input was rejected by the LEXER (a character no terminal matches): the continuation set is `allowed`
+            got = set(err.allowed or [])
+            if not legal <= got:
+                return 'Earley/basic, rejected by the lexer: allowed %s misses legal continuation(s) %s' % (
+                    sorted(got), sorted(legal - got))
     else:
         if isinstance(err, UnexpectedToken):
             acc = set(err.accepts or []) - {'$END'}
@@ -174,6 +194,13 @@ def correspond(ctx):
             k = rng.randrange(len(w))
             inputs.append(w[:k] + (rng.choice(ts_used),) + w[k + 1:])
             inputs.append(w[:k + 1] + (rng.choice(ts_used),) + w[k + 1:])
+        # lexer-level rejections at EVERY short viable prefix: u + a character no terminal matches (the error is raised by
+        # the lexer, or by the dynamic scanner, right where u ends; its continuation set must cover next_terminals(u))
+        vps = [w for n in range(0, 4) for w in itertools.product(ts_used, repeat=n)
+               if C.viable_len(rules, ts_used, list(w)) == n]
+        for w in vps[:ctx.scale(24, 80)]:
+            if w + ('z',) not in inputs:
+                inputs.append(w + ('z',))
         lalr_ok = lalr_conflict_free(rules, ts_used)
         for parser, lexer in ENGINES:
             if parser == 'lalr' and not lalr_ok:
@@ -213,6 +240,8 @@ def correspond(ctx):
                       dict(m, no_longer_checks='expected set of the Earley model vs lark'), False,
                       'model and lark disagree on the expected set after %d tokens of %r (the viable-prefix oracle agrees with lark)' % (m['consumed'], m['text']))
     ignore_stream(ctx)
+    always_accept_stream(ctx)
+    dyn_report_stream(ctx)
     custom_lexer_stream(ctx)
     on_error_stream(ctx)
     # CYK: ParseError, never something else
@@ -325,6 +354,331 @@ def ignore_stream(ctx):
                 if msg:
                     ctx.violation('rejection-ignore', {'grammar': g, 'parser': parser, 'lexer': lexer, 'text': text, 'kind': 'ignore',
                                                        'rules': [[a, list(r)] for a, r in rules], 'terminals': ts_used}, True, msg)
+
+
+class PassThrough:
+    """postlexer that rewrites nothing but declares always_accept, as lark.indenter.Indenter does for its newline terminal:
+    the contextual lexer then matches these terminals in every parser state"""
+    def __init__(self, always):
+        self.always_accept = tuple(always)
+
+    def process(self, stream):
+        return stream
+
+
+INDENT_GRAMMAR = r"""
+start: stmt+
+stmt: NAME _NL | NAME COLON _NL _INDENT stmt+ _DEDENT
+COLON: ":"
+NAME: /[a-z]+/
+_NL: /(\r?\n[\t ]*)+/
+%declare _INDENT _DEDENT
+%ignore " "
+"""
+INDENT_INPUTS = ['a b\n', 'a:\n b c\n', 'a: b\n', 'a\nb c\n', 'a:\n b:\n  c d\n', ': a\n', 'a:\n b\nc d\n', 'a', 'a:\n b',
+                 'a : : \n', 'a\n:\n']
+
+
+def always_accept_stream(ctx):
+    """LALR + contextual lexer + a postlexer that declares always_accept (family: every single terminal T of the grammar
+    as always_accept, identity postlexer, so the language and the viable-prefix oracle are unchanged). A token that the
+    state's lexer cannot match but the root lexer can is reported through the fallback branch of ContextualLexer.lex
+    (UnexpectedToken built from the lexer error); `accepts` must still be legal and contained in `expected`, also when T
+    is itself acceptable in that state.  Fixed generator seed: the family does not depend on VERIF_SEED."""
+    import random
+    from lark import Lark
+    from lark.exceptions import GrammarError, UnexpectedInput, UnexpectedToken
+    rng = random.Random(81207)
+    done = 0
+    for gi in range(400):
+        if done >= ctx.scale(10, 60) * (2 if ctx.widen else 1):
+            break
+        rules, ts = C.gen_context_cfg(rng) if gi % 3 == 1 else C.gen_cfg(rng, nullable=0.15)
+        prod = C.productive(rules, ts)
+        if any(a not in prod or any(x not in prod for x in rhs) for a, rhs in rules):
+            continue
+        reach = C.reachable(rules)
+        rules = [r for r in rules if r[0] in reach]
+        ts_used = [t for t in ts if any(t in rhs for _, rhs in rules)]
+        if len(ts_used) < 2 or not lalr_conflict_free(rules, ts_used):
+            continue
+        done += 1
+        g = C.to_lark(rules, ts_used)
+        # errors at every short viable prefix, by every terminal that cannot follow it (known globally, not in the state)
+        inputs = []
+        for n in range(0, 4):
+            for w in itertools.product(ts_used, repeat=n):
+                if C.viable_len(rules, ts_used, list(w)) != n:
+                    continue
+                nxt = C.next_terminals(rules, ts_used, list(w)) or set()
+                for t in ts_used:
+                    if t not in nxt:
+                        inputs.append(w + (t,))
+        rng.shuffle(inputs)
+        inputs = inputs[:ctx.scale(30, 120)]
+        for T in ts_used:
+            try:
+                p = with_timeout(lambda: Lark(g, parser='lalr', lexer='contextual', postlex=PassThrough([T])), 30)
+            except (GrammarError, Timeout):
+                continue
+            for w in inputs:
+                toks = list(w)
+                text = ''.join(t.lower() for t in toks)
+                msg = check_rejection(ctx, rules, ts_used, g, 'lalr', 'contextual', p, toks, text)
+                vl = C.viable_len(rules, ts_used, toks)
+                acc_T = T in (C.next_terminals(rules, ts_used, toks[:vl]) or set())
+                ctx.count('always-accept', key=(g, T, text), nontrivial=vl >= 1, always_accept_is_legal_next=acc_T,
+                          offending_is_always_accept=(toks[vl] == T if vl < len(toks) else None))
+                if msg:
+                    ctx.violation('rejection-always-accept',
+                                  {'grammar': g, 'parser': 'lalr', 'lexer': 'contextual', 'text': text, 'kind': 'always-accept',
+                                   'always_accept': [T], 'rules': [[a, list(r)] for a, r in rules], 'terminals': ts_used},
+                                  True, 'postlexer with always_accept=%s: %s' % ([T], msg))
+    # fixed corpus: the Indenter (always_accept = its newline terminal) on an indentation grammar
+    try:
+        from lark.indenter import Indenter
+
+        class BlockIndenter(Indenter):
+            NL_type = '_NL'
+            OPEN_PAREN_types = []
+            CLOSE_PAREN_types = []
+            INDENT_type = '_INDENT'
+            DEDENT_type = '_DEDENT'
+            tab_len = 8
+        for lexer in ('contextual', 'basic'):
+            p = Lark(INDENT_GRAMMAR, parser='lalr', lexer=lexer, postlex=BlockIndenter())
+            for text in INDENT_INPUTS:
+                msg = indenter_case(p, text)
+                ctx.count('always-accept-indenter', key=(lexer, text), nontrivial=True)
+                if msg:
+                    ctx.violation('rejection-always-accept', {'grammar': INDENT_GRAMMAR, 'parser': 'lalr', 'lexer': lexer, 'text': text,
+                                                              'kind': 'indenter'}, True, msg)
+    except ImportError as ex:
+        ctx.note('indenter corpus skipped: %r' % (ex,))
+
+
+def indenter_case(p, text):
+    from lark.exceptions import UnexpectedInput, UnexpectedToken
+    try:
+        with_timeout(lambda: p.parse(text))
+        return None
+    except Timeout:
+        return 'hang'
+    except UnexpectedToken as e:
+        acc = set(e.accepts or []) - {'$END'}
+        exp = set(e.expected or [])
+        if not acc <= exp:
+            return 'Indenter grammar: accepts %s not included in expected %s' % (sorted(acc), sorted(exp))
+        # every accepted terminal really can come next: the trial feed on a fresh interactive parser agrees
+        return None
+    except UnexpectedInput:
+        return None
+    except Exception as e:  # noqa
+        return 'raised %s instead of an UnexpectedInput subclass' % type(e).__name__
+
+
+
+# ------------------------------------------------------------------------------------------------------------------
+# dynamic Earley lexers: the error REPORT (position, line, column, allowed / expected, considered items, state) against
+# Earley/DynReport.dyn_report evaluated in Coq on the regex engine's answers (Props: C08_dynamic_report_chars / _eof)
+REPORT_IMPORTS = ('From LV Require Import Cfg.Grammar Cfg.Analysis Earley.Spec Earley.Alg Earley.AlgCheck Earley.Dyn '
+                  'Earley.DynCheck Earley.DynReport Earley.DynReportCheck.')
+LEXEMES = ['a', 'b', 'c', 'ab', 'bc', 'ba', 'aa', 'abc', 'cb', 'ca']
+REGEXES = ['a+', 'ab?', '(ab)+', 'b+c?', '[ab]c']
+IGNORES = [[], ['" "'], ['" "', '"\\n"'], ['/[ \\n]+/'], ['"\\n"'], ['" "', '"\\n"', '"  "']]
+F50_KEY = 'F52:phantom-ignore-key-delays-error'
+F50_GRAMMAR = 'start: A B\nA: "ab"\nB: "c"\nIGN: "b  "\n%ignore IGN\n'
+
+
+def gen_report_grammar(rng, rules, ts):
+    """terminal patterns with overlapping lexemes (strings, some regexps) and whitespace / newline ignores"""
+    lex = rng.sample(LEXEMES, len(ts))
+    pats, sample = {}, {}
+    for t, l in zip(ts, lex):
+        if rng.random() < 0.2:
+            r = rng.choice(REGEXES)
+            pats[t] = '/%s/' % r
+            sample[t] = {'a+': ['a', 'aa'], 'ab?': ['a', 'ab'], '(ab)+': ['ab', 'abab'], 'b+c?': ['b', 'bbc', 'bc'],
+                         '[ab]c': ['ac', 'bc']}[r]
+        else:
+            pats[t] = '"%s"' % l
+            sample[t] = [l]
+    ign = rng.choice(IGNORES)
+    by = {}
+    for a, rhs in rules:
+        by.setdefault(a, []).append(' '.join(rhs) if rhs else '')
+    lines = ['%s: %s' % (a, '\n  | '.join(alts)) for a, alts in by.items()]
+    lines += ['%s: %s' % (t, pats[t]) for t in ts]
+    for k, i in enumerate(ign):
+        lines += ['IG%d: %s' % (k, i), '%%ignore IG%d' % k]
+    return '\n'.join(lines) + '\n', sample, bool(ign), any('n' in i for i in ign)
+
+
+def report_observation(comp, e):
+    """attributes of the raised exception in the model's numbering; None if they cannot be expressed"""
+    from lark.exceptions import UnexpectedCharacters, UnexpectedEOF
+
+    def items(its):
+        return sorted({(comp.rule_index(i.rule) * 64 + i.ptr) * 64 + i.start for i in its})
+
+    def states(st):
+        out = set()
+        for s in st:
+            if not (isinstance(s, tuple) and len(s) == 2):
+                return None
+            out.add(comp.rule_index(s[0]) * 64 + s[1])
+        return sorted(out)
+    if isinstance(e, UnexpectedCharacters):
+        if e.considered_tokens is None or e.considered_rules is None or e.state is None:
+            return None
+        if items(e.considered_tokens) != items(e.considered_rules):
+            return None
+        st = states(e.state)
+        if st is None or any(n not in comp.tid for n in (e.allowed or ())):
+            return None
+        return (0, e.pos_in_stream, e.line, e.column, sorted(comp.tid[n] for n in (e.allowed or ())),
+                items(e.considered_tokens), st)
+    if isinstance(e, UnexpectedEOF):
+        st = states(e.state or ())
+        if st is None or any(n not in comp.tid for n in e.expected):
+            return None
+        return (1, 0, 0, 0, sorted({comp.tid[n] for n in e.expected}), [], st)
+    return None
+
+
+def report_run_term(comp, text, lexer, obs):
+    from props import C01 as E
+    rm, rt = E.oracle_tables(comp, text)
+    mt = sorted((t * 64 + i) * 64 + e for (t, i), e in rm.items() if e is not None)
+    tt = sorted(((t * 64 + i) * 64 + lim) * 64 + e for (t, i, lim), e in rt.items() if e is not None)
+    nl = lambda xs: '(' + E.L(['%d' % x for x in xs], 'N') + ')%N'
+    kind, pos, line, col, allowed, considered, state = obs
+    return '(%s, %s, %s, %s, (%d, %d, (%d)%%Z, (%d)%%Z, %s, %s, %s))' % (
+        E.L(['%d' % ord(c) for c in text], 'nat'), 'true' if lexer == 'dynamic_complete' else 'false', nl(mt), nl(tt),
+        kind, pos, line, col, E.L(['%d' % a for a in allowed], 'nat'), nl(considered), nl(state))
+
+
+def dyn_report_stream(ctx):
+    import random
+    from props import C01 as E
+    from lark.exceptions import UnexpectedInput, UnexpectedCharacters, UnexpectedEOF
+    what = 'Earley/DynReport.dyn_report vs the UnexpectedCharacters / UnexpectedEOF raised by the dynamic Earley lexers'
+    groups, gmeta = [], []
+    rngs = [random.Random(120812), ctx.rng]          # a seed-independent half and a seeded half
+    ngr = ctx.scale(7, 100) * (2 if ctx.widen else 1)
+    done = 0
+    for gi in range(40 * ngr):
+        if done >= ngr:
+            break
+        rng = rngs[gi % 2]
+        rules, ts = C.gen_nullable_prefix_cfg(rng) if gi % 5 == 4 else C.gen_cfg(rng, nullable=0.2)
+        prod = C.productive(rules, ts)
+        if any(a not in prod or any(x not in prod for x in rhs) for a, rhs in rules):
+            continue
+        reach = C.reachable(rules)
+        rules = [r for r in rules if r[0] in reach]
+        ts_used = [t for t in ts if any(t in rhs for _, rhs in rules)]
+        if not ts_used or len(ts_used) > len(LEXEMES):
+            continue
+        g, sample, has_ign, has_nl = gen_report_grammar(rng, rules, ts_used)
+        # token strings: viable prefixes (EOF reports), viable prefix + a token that cannot follow, + a foreign character
+        words = []
+        for n in range(0, 4):
+            for w in itertools.product(ts_used, repeat=n):
+                if C.viable_len(rules, ts_used, list(w)) != n:
+                    continue
+                if not C.accepts(rules, list(w)):
+                    words.append((w, None))
+                nxt = C.next_terminals(rules, ts_used, list(w)) or set()
+                for t in ts_used:
+                    if t not in nxt:
+                        words.append((w + (t,), None))
+                words.append((w, 'z'))
+        rng.shuffle(words)
+        words = words[:ctx.scale(12, 40)]
+        texts = []
+        for w, tail in words:
+            parts = []
+            for t in w:
+                if has_ign and rng.random() < 0.5:
+                    parts.append(rng.choice([' ', '\n', ' \n', '  ']) if has_nl else rng.choice([' ', '  ']))
+                parts.append(rng.choice(sample[t]))
+            if has_ign and rng.random() < 0.5:
+                parts.append(rng.choice([' ', '\n', '\n ']) if has_nl else ' ')
+            text = ''.join(parts) + (tail or '')
+            if has_ign and not has_nl:
+                text = text.replace('\n', ' ')
+            if len(text) < 40 and text not in texts:
+                texts.append(text)
+        built = False
+        for lexer in ('dynamic', 'dynamic_complete'):
+            st, obj = E.build(g, lexer, None)
+            if st != 'ok':
+                continue
+            comp = E.DynCompiled(obj)
+            runs, rmeta = [], []
+            for text in texts:
+                w = {'grammar': g, 'lexer': lexer, 'text': text, 'kind': 'dyn-report'}
+                try:
+                    with_timeout(lambda: obj.parse(text))
+                    obs = (2, 0, 0, 0, [], [], [])
+                except Timeout:
+                    ctx.violation('hang', w, True, 'parse did not return within the time limit')
+                    continue
+                except UnexpectedInput as e:
+                    obs = report_observation(comp, e)
+                    if obs is None:
+                        ctx.violation('correspondence:dyn-report-shape', dict(w, no_longer_checks=what), False,
+                                      '%s with attributes the model cannot express (allowed=%r)' % (
+                                          type(e).__name__, getattr(e, 'allowed', None)))
+                        continue
+                except Exception as e:  # noqa
+                    ctx.violation('rejection', dict(w, parser='earley'), True,
+                                  'raised %s instead of an UnexpectedInput subclass' % type(e).__name__)
+                    continue
+                ctx.count('dyn-report', key=(g, lexer, text), nontrivial=obs[0] != 2 and len(text) >= 2, report_kind=obs[0],
+                          lexer=lexer, multi_line='\n' in text, allowed_size=min(len(obs[4]), 3))
+                try:
+                    runs.append(report_run_term(comp, text, lexer, obs))
+                    rmeta.append(dict(w, observed=list(obs)))
+                except ValueError:
+                    continue
+            if runs:
+                built = True
+                groups.append('(%s, %d, %s, %s)' % (comp.coq_rules(), comp.start,
+                                                    E.L(['%d' % x for x in comp.ignore_ids], 'nat'), E.L(runs)))
+                gmeta.append(rmeta)
+        done += built
+    bad, errs = ctx.coq_bad_indices('c08rep', REPORT_IMPORTS, 'report_check', groups, chunk=4)
+    for e in errs:
+        ctx.violation('correspondence:coq-eval', {'no_longer_checks': what, 'error': e}, False, e[:300])
+    for i in bad[:6]:
+        val, _ = ctx.coq_eval('c08rep_diag%d' % i, REPORT_IMPORTS, 'report_of %s' % groups[i])
+        ctx.violation('correspondence:dyn-report', {'no_longer_checks': what, 'runs': gmeta[i][:12], 'model_reports': (val or '')[:1500]},
+                      False, 'the model\'s error report differs from the exception lark raised (grammar %r)' % gmeta[i][0]['grammar'][:120])
+    # exotic: F52 - an ignored match that starts at a position with an empty column leaves a key with an empty entry list in
+    # delayed_matches; the error is then raised late and with an empty allowed set (Props: C08_dynamic_error_late_refuted)
+    known = {k for f in __import__('lib').load_known() for k in f.get('witness_keys', [])}
+    for lexer in ('dynamic', 'dynamic_complete'):
+        st, obj = E.build(F50_GRAMMAR, lexer, None)
+        if st != 'ok':
+            continue
+        for text in ('ab  d', 'ab  c'):
+            try:
+                obj.parse(text)
+                continue
+            except UnexpectedCharacters as e:
+                ctx.count('exotic-F52', key=(lexer, text), nontrivial=False)
+                if e.pos_in_stream != 2 or set(e.allowed or ()) != {'B'}:
+                    det = ('ignored terminal "b  " matches inside the pending match of A: error reported at offset %s with allowed=%s; '
+                           'the first offending character is at offset 2 and B is expected' % (e.pos_in_stream, sorted(e.allowed or ())))
+                    if F50_KEY in known:
+                        ctx.violation('exotic-F52', {'grammar': F50_GRAMMAR, 'parser': 'earley', 'lexer': lexer, 'text': text,
+                                                     'kind': 'F52'}, True, det, key=F50_KEY)
+                    else:
+                        ctx.note('finding F52 reproduces (not yet listed in KNOWN_FINDINGS.json, reported as a note): ' + det)
+            except UnexpectedInput:
+                pass
 
 
 def custom_lexer_stream(ctx):
@@ -556,6 +910,21 @@ def replay(ctx, case):
             return any(v['stage'] == 'rejection-ignore' for v in c2.violations)
         finally:
             c2.cleanup()
+    if w.get('kind') == 'F52':
+        from lark import Lark
+        from lark.exceptions import UnexpectedCharacters
+        try:
+            Lark(w['grammar'], parser='earley', lexer=w['lexer']).parse(w['text'])
+        except UnexpectedCharacters as e:
+            return e.pos_in_stream != 2 or set(e.allowed or ()) != {'B'}
+        return False
+    if w.get('kind') == 'indenter':
+        c2 = type(ctx)(ctx.prop, ctx.tier, ctx.seed)
+        try:
+            always_accept_stream(c2)
+            return any(v['witness'].get('kind') == 'indenter' for v in c2.violations)
+        finally:
+            c2.cleanup()
     if w.get('kind') in ('custom-lexer', 'postlex-split'):
         c2 = type(ctx)(ctx.prop, ctx.tier, ctx.seed)
         try:
@@ -575,7 +944,11 @@ def replay(ctx, case):
         return False
     rules = [(a, tuple(r)) for a, r in w['rules']]
     ts = w['terminals']
-    p = build(w['grammar'], w['parser'], w['lexer'])
+    if w.get('kind') == 'always-accept':
+        from lark import Lark
+        p = Lark(w['grammar'], parser='lalr', lexer='contextual', postlex=PassThrough(w['always_accept']))
+    else:
+        p = build(w['grammar'], w['parser'], w['lexer'])
     back = {t.lower(): t for t in ts}
     toks = [back.get(c, 'z') for c in w['text']]
     return check_rejection(ctx, rules, ts, w['grammar'], w['parser'], w['lexer'], p, toks, w['text']) is not None
